@@ -64,6 +64,28 @@ def build_object(spec, shared):
     raise AssertionError(kind)
 
 
+_CUSTOM = {}
+
+
+def custom_table_palette():
+    """a table palette that re-maps the palette of enum cells (SUB_PALETTES_MAP)"""
+    if not _CUSTOM:
+        from ak.ppobj import PPEnumFieldType
+        from ak.color import ConfColor
+
+        class VfEnumPalette(PPEnumFieldType.EnumPalette):
+            value = ConfColor('NUMBER')
+            name_good = ConfColor('OK')
+            name_warn = ConfColor('WARN')
+
+        class VfTablePalette(PPTable.TablePalette):
+            SUB_PALETTES_MAP = {PPEnumFieldType.EnumPalette: VfEnumPalette}
+            border = ConfColor('KEYWORD')
+
+        _CUSTOM['table'] = VfTablePalette
+    return _CUSTOM['table']
+
+
 PALETTE_CLASSES = {'table': lambda: PPTable.TablePalette, 'pp': lambda: PrettyPrinter.PPPalette,
                    'ghist': lambda: GHistReport.GHistPalette}
 
@@ -91,6 +113,8 @@ def render(obj, ospec, req, conf_dict, live_conf=None, observe=None):
         kw = dict(no_color=no_color)
     elif via == 'palette_class' and kind in PALETTE_CLASSES:
         kw = dict(palette=PALETTE_CLASSES[kind](), colors_conf=conf, no_color=no_color)
+    elif via == 'custom_palette' and kind == 'table':
+        kw = dict(palette=custom_table_palette(), colors_conf=conf, no_color=no_color)
     elif via == 'palette_obj' and kind in PALETTE_CLASSES:
         kw = dict(palette=PALETTE_CLASSES[kind]()(conf), no_color=no_color)
     else:
@@ -111,6 +135,21 @@ def render(obj, ospec, req, conf_dict, live_conf=None, observe=None):
         if req['mode'] == 'whole_then_lines':
             str(res)
             return str(CHText("\n").join(res))
+        if req['mode'] == 'interleaved':
+            # the result is consumed line by line while another rendering of the same object
+            # (other colours) is produced in between
+            it = iter(res)
+            first = []
+            for _ in range(3):
+                try:
+                    first.append(next(it))
+                except StopIteration:
+                    break
+            kw2 = dict(kw, no_color=not no_color)
+            other = obj(unjson(ospec['value']), **kw2) if kind == 'pp' else obj.ch_text(**kw2)
+            other_lines = list(other)
+            str(CHText("\n").join(other_lines))
+            return str(CHText("\n").join(first + list(it)))
         if req['mode'] == 'lines_twice':
             list(res)
             return str(CHText("\n").join(res))
